@@ -2,7 +2,7 @@
    ExtrOcamlBasic only (bool, option, unit, list, prod, sumbool, sumor -> OCaml's own); N, Z, positive, nat
    stay Coq datatypes.  No Extract Constant. *)
 From Coq Require Import Extraction ExtrOcamlBasic.
-From GR Require Import Base Glob Resp Handler Exec Conn Multi Redis Linear Lifecycle LifecycleThms.
+From GR Require Import Base Glob Resp Handler Exec Conn Multi Redis Store Linear Lifecycle LifecycleThms.
 Extraction "model.ml" Glob.glob_match Glob.regexp_from_glob Glob.re_parse Glob.re_match
   Base.itoa Base.atoi Resp.encode Resp.parse Resp.parse_rd Resp.parse_all Resp.wf
-  Handler.hcall_name Handler.hcall_key Handler.parse_float Conn.serve Conn.trace Conn.step Multi.msys_init Multi.mrun Multi.mstep Redis.prim Linear.lin Linear.seq_exec LifecycleThms.life_model.
+  Handler.hcall_name Handler.hcall_key Handler.parse_float Conn.serve Conn.trace Conn.step Multi.msys_init Multi.mrun Multi.mstep Redis.prim Store.sprim_store Linear.lin Linear.seq_exec LifecycleThms.life_model.
